@@ -101,6 +101,32 @@ def replay(chk, cases, want, sets_of=None):
                         and "DataOutIsCallersData" in want:
                     chk.violation(dict(base, clause="DataOutIsCallersData", field="", detail={}),
                                   dedup=("DataOutIsCallersData", name, s))
+        # ---- C03 when the caller re-aims a command object: cmd.cdb = cmd.build_cdb(...) with the same fields must
+        # leave CDB and buffers in agreement (recorded as one more event, judged by Trace_Command)
+        if want & CLAUSES["C03"] and c["ctor"] and not c["refuse"]:
+            for s in sets:
+                if cmds.opcode(name, s) is None:
+                    continue
+                cmd, exc, passed = cmds.construct(name, s, a, c["ph"])
+                if cmd is None:
+                    break
+                d = _full_dict(c)
+                d["opcode"] = int(cmd.opcode.value)
+                try:
+                    cmd.cdb = cmd.build_cdb(**d)             # the caller re-aims the command ...
+                    e = cmds.event(name, s, a, c["ph"], cmd, "", passed)
+                    e["rebuilt"] = 1
+                    events.append(e)
+                    cmd.build_cdb(**d)                       # ... and a call whose result is discarded
+                    e = cmds.event(name, s, a, c["ph"], cmd, "", passed)
+                    e["rebuilt"] = 2
+                    events.append(e)
+                    n += 2
+                except Exception as ex:
+                    chk.violation({"cls": name, "set": s, "args": a, "clause": "ByteBuffers", "field": "",
+                                   "detail": {"raised": type(ex).__name__}, "what": "cmd.cdb = cmd.build_cdb(...) on a built command"},
+                                  dedup=("ByteBuffers", name, "rebuild", type(ex).__name__))
+                break
         # ---- C02 on the constructor route: the CDB a constructor built decodes to the values it was built
         # from, and building again on the same object gives the same bytes and leaves cmd.cdb alone
         if want & CLAUSES["C02"] and c["ctor"] and not c["refuse"]:
